@@ -20,7 +20,9 @@ EXPLANATION = (
     "regularisation shift and its restore are guarded by the same flag, the restore follows the refactorisation and "
     "iterative refinement reads only the restored copy; (R5) one scaling state per factorisation: nothing between kktsystem.update and the last kktsystem.solve of an iteration writes a field that get_Hs / the sparse update / mul_Hs read; (R6) all four passes select sparse cones with the same test; (R8) get_Hs of every cone type fills its whole block; (R7) KKT mirror discipline: the value array and the LDL engine's permuted copy are written only through the paired helpers (re-run of C08.R5)."
     " (R6) also: the second-order cone's layout predicates are its representation flag (sparse_data) or literally the allocation test of new; (R9) GenPowerCone::mul_Hs applies mu (D + p p' - q q' - r r') with whole-block inner products and get_Hs the diagonal mu d1, mu d2."
-    " R9 also: the expansion columns p, q, r are each scaled by -sqrt(mu).")
+    " R9 also: the expansion columns p, q, r are each scaled by -sqrt(mu)."
+    " (R10) fill_block / colcount_block place an entry (r, j, v) of a block at (r + initrow, j + initcol) resp. transposed, with value and map entry, count = fill (C16.R10 re-run)."
+    " (R11) colcount_missing_diag and fill_missing_diag take the same column-by-column decision.")
 ASSUMPTIONS = ['rustc MIR construction and trait resolution are correct',
                'the block utilities (colcount_block/fill_block ...) are mutually consistent (C16 territory)']
 
@@ -667,6 +669,36 @@ def genpow_operator(rep, F, tag, rid):
     R.guard(body)
 
 
+def missing_diag_pairing(rep, F, tag):
+    """P's structural diagonal is completed in two passes over the same columns: colcount_missing_diag reserves a slot, fill_missing_diag writes
+    it.  Both decide "this column lacks its diagonal entry" by themselves; if the two decisions differ for some column (e.g. one treats a
+    last entry above the diagonal as present), the fill pass writes into a slot that was never reserved and overwrites a user entry."""
+    R = rep.rule('C11.R11', 'colcount_missing_diag and fill_missing_diag take the same decision, column by column (sibling agreement of the two predicates)')
+
+    def body():
+        from .c16 import normalise
+        tables = {}
+        for nm in ('colcount_missing_diag', 'fill_missing_diag'):
+            f = F.one(name=nm, adt='CscMatrix')
+            rows = set()
+            for val, ret, ev, tr in Walker(f, cut_loops=True, local_stores=True).leaves():
+                if ret[0] != 'cut':
+                    continue
+                v = {normalise(k, 'arg2'): x for k, x in val.items()}
+                dec = tuple(sorted((k, x) for k, x in v.items() if ('arg2.colptr[' in k or 'arg2.rowval[' in k) and k[:3] in ('eq(', 'ne(', 'lt(', 'le(')))
+                acts = any(e[0] == 'store' and 'self.' in str(e[1]) for e in ev)
+                if dec:
+                    rows.add((dec, acts))
+            tables[nm] = rows
+            R.check(len(rows) >= 3 and any(a for d, a in rows) and any(not a for d, a in rows), 'table|%s%s' % (nm, tag), '%s: decision table has %d rows' % (nm, len(rows)), f.loc())
+        a, b = tables['colcount_missing_diag'], tables['fill_missing_diag']
+        R.check(a == b, 'same-decision' + tag,
+                'the count pass and the fill pass disagree on which columns lack a diagonal entry: only in count %s, only in fill %s - the fill pass would write a structural zero into a '
+                'slot the count pass did not reserve (or leave a reserved slot unwritten)' % (sorted(a - b)[:2], sorted(b - a)[:2]), F.one(name='fill_missing_diag', adt='CscMatrix').loc())
+
+    R.guard(body)
+
+
 def hs_block_complete(rep, F, tag, rid='C11.R8'):
     """Every cone's get_Hs must fill its whole block of the KKT matrix: the entries it leaves alone keep the values of the
     previous iteration (or the structural initial value), so the assembled matrix is not the intended one."""
@@ -724,6 +756,10 @@ def run(ctx, rep, tier):
         one_scaling_state(rep, F, E, tag)
         hs_block_complete(rep, F, tag)
         genpow_operator(rep, F, tag, 'C11.R9')
+        # P, A' and every cone block enter the KKT matrix through fill_block / colcount_block (C16.R10 re-run)
+        from . import c16
+        c16.block_placement(rep, F, tag, 'C11.R10')
+        missing_diag_pairing(rep, F, tag)
         from . import c05
         # R5 (shared): identity scaling rewrites everything the KKT update reads
     from . import c08
